@@ -71,12 +71,16 @@ Definition reassembles (evs : list event) (src_text : text) : bool :=
 (* streams: (cols,final) = (1,0) (0,0) (1,1) (0,1) *)
 Definition chk_C01 (s : src) (o : tree_obs) : N :=
   if negb (tree_wf s) then 100 else
-  match to_streams o with
-  | [s10; s00; _; _] =>
-    if negb (reassembles (fst s10) (to_source o)) then 1
-    else if negb (reassembles (fst s00) (to_source o)) then 2
-    else 0
-  | _ => 3
+  let r := match to_streams o with
+           | [s10; s00; _; _] =>
+             if negb (reassembles (fst s10) (to_source o)) then 1
+             else if negb (reassembles (fst s00) (to_source o)) then 2
+             else 0
+           | _ => 3
+           end in
+  match r with
+  | 0 => 0
+  | k => if k4_shape s then 54 else if k3_shape s then 53 else k
   end.
 
 (* ====================================================================== *)
